@@ -205,11 +205,32 @@ class Items:
         self.consts = {}     # (impl or None, name) -> (type toks, expr toks, where)
         self.macros = {}     # name -> [(pattern toks, body toks)]
         self.assoc = {}      # (impl, name) -> type toks of `type name = ..;` inside an impl
+        self.variant_fields = {}    # (enum, variant) -> field names of a struct-like variant
 
     # ---- scanning ----
     def scan_file(self, rel, text):
         toks = lex(text, rel)
         self._scan(toks, rel, None)
+
+    def _scan_nested(self, toks, where):
+        """`enum X { .. }` / `impl X { .. }` items written inside a function body (at its top level)"""
+        mt = match_table(toks, where)
+        i, n = 0, len(toks)
+        while i < n:
+            t = toks[i]
+            if t.k == "id" and t.s in ("enum", "impl") and i + 1 < n and toks[i + 1].k == "id" and \
+                    (i == 0 or (toks[i - 1].k == "p" and toks[i - 1].s in (";", "}", "]"))):
+                j = i + 2
+                while j < n and not (toks[j].k == "p" and toks[j].s == "{"):
+                    j += 1
+                if j < n:
+                    self._scan(toks[i:mt[j] + 1], where, None)
+                    i = mt[j] + 1
+                    continue
+            if t.k == "p" and t.s in OPEN:
+                i = mt[i] + 1
+                continue
+            i += 1
 
     def _scan(self, toks, where, impl):
         mt = match_table(toks, where)
@@ -336,6 +357,7 @@ class Items:
                 elif is_p(j, "{"):
                     if not cfg_test:
                         self.fns.setdefault((impl, name), FnDecl(where, impl, name, params, ret, toks[j + 1:mt[j]]))
+                        self._scan_nested(toks[j + 1:mt[j]], where)
                     i = mt[j] + 1
                 else:
                     raise ShapeError(f"{where}: fn {name}: no body")
@@ -423,8 +445,21 @@ class Items:
                         variants.append((vname, [strip_attrs_vis(p, where) for p in split_commas(inner, where)]))
                     elif part[1].s == "=":
                         variants.append((vname, []))
+                    elif part[1].s == "{":
+                        # struct-like variant: the payload types in order, the field names aside
+                        names, tys = [], []
+                        for fp in split_commas(part[2:-1], where):
+                            fp = strip_attrs_vis(fp, where)
+                            if not fp:
+                                continue
+                            if not (fp[0].k == "id" and len(fp) > 2 and fp[1].s == ":"):
+                                raise ShapeError(f"{where}: enum {name}::{vname}: cannot read field")
+                            names.append(fp[0].s)
+                            tys.append(fp[2:])
+                        variants.append((vname, tys))
+                        self.variant_fields[(name, vname)] = names
                     else:
-                        variants.append((vname, None))     # struct-like variant: not usable
+                        variants.append((vname, None))     # not usable
                 self.enums[name] = variants
                 i = mt[j] + 1
                 cfg_test = False
@@ -880,6 +915,10 @@ class Parser:
         if self.at_id("_"):
             self.i += 1
             return ("pwild",)
+        if self.at_p(".."):
+            # the rest pattern inside a tuple / tuple-variant pattern: `Error::CrcError(..)`
+            self.i += 1
+            return ("prest",)
         t = self.peek()
         if t is not None and t.k == "int":
             self.i += 1
@@ -918,7 +957,23 @@ class Parser:
                 self.eat_p(")")
                 return ("ptuple", segs, parts)
             if self.at_p("{"):
-                self.fail("struct patterns are outside the subset")
+                # `Enum::Variant { a, b: pat, .. }`
+                self.i += 1
+                fields = []
+                while not self.at_p("}"):
+                    if self.at_p(".."):
+                        self.i += 1
+                        continue
+                    fname = self.eat_id()
+                    if self.at_p(":"):
+                        self.i += 1
+                        fields.append((fname, self.pattern()))
+                    else:
+                        fields.append((fname, ("pbind", fname)))
+                    if self.at_p(","):
+                        self.i += 1
+                self.eat_p("}")
+                return ("pstruct", segs, fields)
             if len(segs) == 1 and (segs[0][0].islower() or segs[0][0] == "_"):
                 return ("pbind", segs[0])
             return ("ppath", segs)
@@ -1075,6 +1130,12 @@ class Parser:
                     self.fail("attribute expected")
                 self.i = self.mt[self.i] + 1
                 continue
+            if (self.at_id("enum") or self.at_id("impl")) and self.at_id(None, 1):
+                # a nested item (registered by the item scanner): not a statement
+                while not self.at_p("{"):
+                    self.i += 1
+                self.i = self.mt[self.i] + 1
+                continue
             if self.at_id("const") and self.at_id(None, 1) and self.at_p(":", 2):
                 self.i += 1
                 cname = self.eat_id()
@@ -1116,9 +1177,15 @@ class Parser:
             if self.at_id("while"):
                 self.i += 1
                 if self.at_id("let"):
+                    # `while let P = e { body }` is `loop { if let P = e { body } else { break } }`
                     self.i += 1
-                    self.pattern()
+                    wpat = self.pattern()
                     self.eat_p("=")
+                    wexpr = self.expr(nostruct=True)
+                    wbody = self.block()
+                    stmts.append(("loop", ("block", [("expr", ("iflet", wpat, wexpr, wbody,
+                                                               ("block", [("expr", ("break", None))], None)))], None)))
+                    continue
                 cond = self.expr(nostruct=True)
                 stmts.append(("while", cond, self.block()))
                 continue
@@ -1258,7 +1325,8 @@ class Parser:
                         self.i += 1
                         guard = self.expr(nostruct=True)
                     self.eat_p("=>")
-                    body = self.expr()
+                    # an arm whose body is a block ends at its `}` (no call / field / `?` may follow it)
+                    body = self.block() if self.at_p("{") else self.expr()
                     if self.at_p(","):
                         self.i += 1
                     elif not self.at_p("}") and body[0] not in ("block", "if", "match"):
@@ -1329,6 +1397,8 @@ class Parser:
                     if self.at_p(","):
                         self.i += 1
                 self.eat_p("}")
+                if len(segs) >= 2 and self.items is not None and segs[-2] in self.items.enums:
+                    return ("struct", segs[-2] + "::" + segs[-1], fields)
                 return ("struct", segs[-1], fields)
             return ("path", segs)
         self.fail("expression expected")
